@@ -57,6 +57,11 @@ type Project struct {
 	// An object that takes a buffer over ends the life of the buffer's previous owner:
 	// no further call on it, nothing held from it. Not part of the input's identity.
 	Buf int `json:"buf,omitempty"`
+	// RulesOnly (with ShareWith): only the enum rule objects are shared, and they
+	// exist before the tasks start - the way rule objects registered once are used by
+	// schemas that different goroutines work on (C11). Type objects are never shared
+	// between tasks: compilation completes them in place.
+	RulesOnly bool `json:"rules_only,omitempty"`
 }
 
 type TypeSpec struct {
@@ -80,15 +85,16 @@ type projectJ struct {
 	ShareWith int        `json:"share_with,omitempty"`
 	Opt       string     `json:"opt,omitempty"`
 	Buf       int        `json:"buf,omitempty"`
+	RulesOnly bool       `json:"rules_only,omitempty"`
 }
 
 func (p Project) MarshalJSON() ([]byte, error) {
-	return json.Marshal(projectJ{p.Kind, p.Name, Txt(p.Text), p.Types, p.Rules, p.Torn, p.ShareWith, p.Opt, p.Buf})
+	return json.Marshal(projectJ{p.Kind, p.Name, Txt(p.Text), p.Types, p.Rules, p.Torn, p.ShareWith, p.Opt, p.Buf, p.RulesOnly})
 }
 func (p *Project) UnmarshalJSON(b []byte) error {
 	var j projectJ
 	err := json.Unmarshal(b, &j)
-	*p = Project{j.Kind, j.Name, string(j.Text), j.Types, j.Rules, j.Torn, j.ShareWith, j.Opt, j.Buf}
+	*p = Project{j.Kind, j.Name, string(j.Text), j.Types, j.Rules, j.Torn, j.ShareWith, j.Opt, j.Buf, j.RulesOnly}
 	return err
 }
 
